@@ -339,6 +339,8 @@ func (f File) Generate(inputWriter io.Writer, settings GenerateSettings) error {
 		type bebopImport struct {
 			from string
 			to   string
+			// dir is the directory of the importing file; import paths are relative to it
+			dir string
 		}
 		imports := make([]bebopImport, len(f.Imports))
 		importGraph := importgraph.NewDgraph()
@@ -346,13 +348,14 @@ func (f File) Generate(inputWriter io.Writer, settings GenerateSettings) error {
 			imports[i] = bebopImport{
 				from: f.GoPackage,
 				to:   imp,
+				dir:  thisDir,
 			}
 		}
 		// TODO: why are imports not scoped to a namespace?
 		imported := map[string]struct{}{}
 		for i := 0; i < len(imports); i++ {
 			imp := imports[i]
-			impPath := filepath.Join(thisDir, imp.to)
+			impPath := filepath.Join(imp.dir, imp.to)
 
 			impF, err := os.Open(impPath)
 			if err != nil {
@@ -373,6 +376,7 @@ func (f File) Generate(inputWriter io.Writer, settings GenerateSettings) error {
 				imports = append(imports, bebopImport{
 					from: impFile.GoPackage,
 					to:   subImp,
+					dir:  filepath.Dir(impPath),
 				})
 			}
 			imported[impPath] = struct{}{}
